@@ -411,3 +411,16 @@ Proof.
     exists j. repeat split; [exact Hj|exact E|apply fl_eq_Z_exact; exact Hj].
 Qed.
 Print Assumptions C04_float_exact.
+
+(* Tie T for the ALGORITHM: `as_bool_src` / `as_int_src` / `as_int_v1_src` are translated by
+   harness/tables/CoerceDispatchAlg.py from the CURRENT source text of utils/type_conv.py on every run:
+   for each kind of JSON value the chain of exact-type tests (`t is bool`, `t is str`, `t is base_type`,
+   `t is float` ... in the order the source writes them; bool is NOT an int for `is`) is evaluated and the
+   branch taken is translated.  They equal the model's functions on every value, so C04_bool, C04_int_v0,
+   C04_int_v1 and the integer-string theorems are about the dispatch the source spells out now. *)
+From DW Require Import T_CoerceDispatchAlg CoerceDispatchSrcTie.
+Theorem C04_dispatch_source_tie :
+  (forall j, as_bool_src j = as_bool j) /\ (forall j, as_int_src j = as_int j) /\
+  (forall j, as_int_v1_src j = as_int_v1 j).
+Proof. exact (conj as_bool_src_eq (conj as_int_src_eq as_int_v1_src_eq)). Qed.
+Print Assumptions C04_dispatch_source_tie.
